@@ -121,6 +121,8 @@ T = [
     ("org0E00", "ORG", "$0E00", "org", 0x0E00),
     ("orgFFF0", "ORG", "$FFF0", "org", 0xFFF0),
     ("org.lbl", "ORG", "{L}", "org", None),
+    # a negative origin: refused today; were it accepted, the program would have to sit where the listing says (two's complement)
+    ("org.neg", "ORG", "-256", "org", 0xFF00),
     ("setdp", "SETDP", "0", "none", None),
     ("nam", "NAM", "TEST", "none", None),
     ("end", "END", "", "none", None),
